@@ -87,14 +87,16 @@ pub fn render(
             if !fresh_line && prev.is_some() {
                 text.push(' ');
             }
-            let ct = comment_text(g);
-            let start = text.len();
-            text.push_str("//");
-            text.push_str(&ct);
-            let end = text.len();
-            text.push_str(comment_nl);
-            r.comments.push((g, start, end, ct));
-            real += 1;
+            // a text with line breaks gives several comment lines (= several comment tokens)
+            for line in comment_text(g).split('\n') {
+                let start = text.len();
+                text.push_str("//");
+                text.push_str(line);
+                let end = text.len();
+                text.push_str(comment_nl);
+                r.comments.push((g, start, end, line.to_string()));
+                real += 1;
+            }
             fresh_line = true;
             prev = None; // a line end separates anything
         }
